@@ -541,7 +541,7 @@ def _unmask(v, mask):
             r = t.args[0]
         elif t.op in ("const", "dim"):
             r = t
-        elif t.op in _EW and t.op != "sym":
+        elif (t.op in _EW and t.op != "sym") or t.op in ("where3", "lt", "le", "gt", "ge", "eq", "ne", "invert", "bitand", "bitor"):
             parts = [rec(a) for a in t.args]
             r = None if any(p is None for p in parts) else Term(t.op, *parts)
         elif t.op == "sym":
@@ -768,6 +768,9 @@ class Normalizer:
             if isinstance(st_t, Term) and st_t.op == "store" and self.nf(st_t.args[0]) == self.nf(other) and _nonempty_guard(a[0], st_t.args[1]):
                 return self.nf(st_t)
             return P_atom(A("phi", self.freeze(a[0]), wrap(x), wrap(y)))
+        if op == "nonzero1" and len(a) == 1 and isinstance(a[0], Term) and a[0].op == "invert" and isinstance(a[0].args[0], Term) and a[0].args[0].op == "isin" and isinstance(a[0].args[0].args[0], Term) and a[0].args[0].args[0].op == "arange" and len(a[0].args[0].args[0].args) == 1:
+            # positions of arange(n) not contained in b are those values themselves: setdiff1d(arange(n), b)
+            return self.nf(Term("setdiff1d", a[0].args[0].args[0], a[0].args[0].args[1]))
         if op == "lstsq" and len(a) >= 2:
             # the minimum-norm least-squares solution of A Z = B is pinv(A) @ B (same relative cut-off)
             return p_matmul(P_atom(A("pinv", self.freeze(a[0]), *[self.freeze(x) for x in a[2:]])), self.nf(a[1]))
@@ -788,6 +791,11 @@ class Normalizer:
                 if full:
                     idx = idx.args[0]
             idx = _canon_idx_term(idx)  # a[np.flatnonzero(m)] selects the same entries as a[m]
+            # a[i][:, s] = a[i, s] for a first-axis selection i and a basic slice s
+            if isinstance(base, Term) and base.op == "getitem" and isinstance(idx, Term) and idx.op == "tuple" and len(idx.args) == 2 and _term_full_slice(idx.args[0]) and isinstance(idx.args[1], Term) and idx.args[1].op == "slice":
+                inner_i = base.args[1]
+                if isinstance(inner_i, Term) and inner_i.op in ("unique", "nonzero1", "argsort", "list", "setdiff1d", "arange", "flatten", "ravel", "sort"):  # index vectors only: a scalar index would drop the axis
+                    return self.nf(Term("getitem", base.args[0], Term("tuple", inner_i, idx.args[1])))
             # a[:h][j] = a[j] and a[:, :h][:, j] = a[:, j] for a fixed element j >= 0 (wherever defined)
             while isinstance(base, Term) and base.op == "getitem":
                 ax = _term_prefix_axis(base.args[1])
